@@ -278,6 +278,7 @@ func verifCanary(label string, cond bool) {}
 //@   props C14
 //@   use generateKeys@spec
 //@   assigns nothing
+//@   canary ensures [C14:canary-same-keys-both-ways] dyn(result.signature, *HMAC).Secret == dyn(result.verifySignature, *HMAC).Secret
 //@   ensures [C14:shape] err == nil && result != nil && fresh(result) && result.blockSize == 16 && result.plainttextBlockSize == 16 &&
 //@           result.signatureLength == 20 && result.remoteSignatureLength == 20
 //@   ensures [C14:send-sign] typeis(result.signature, *HMAC) && dyn(result.signature, *HMAC).Hash == 3 &&
